@@ -69,7 +69,9 @@ IdA(d) == [i \in 1..d |-> [j \in 1..d |-> IF i = j THEN One ELSE Zero]]
 IntMat(M) == [i \in 1..Len(M) |-> [j \in 1..Len(M[i]) |-> R(M[i][j])]]
 Geos(d) ==
   IF d = 2 THEN << IdA(2), IntMat(<< <<2, 0>>, <<0, 3>> >>), IntMat(<< <<2, 1>>, <<0, 3>> >>), IntMat(<< <<1, 2>>, <<3, 1>> >>) >>
-  ELSE << IdA(3), IntMat(<< <<2, 0, 0>>, <<0, 1, 0>>, <<0, 0, 3>> >>), IntMat(<< <<1, 1, 0>>, <<0, 2, 0>>, <<0, 1, 1>> >>) >>
+  ELSE << IdA(3), IntMat(<< <<2, 0, 0>>, <<0, 1, 0>>, <<0, 0, 3>> >>), IntMat(<< <<1, 1, 0>>, <<0, 2, 0>>, <<0, 1, 1>> >>),
+          \* full matrices: every entry takes part in the determinant / cofactors (det = 16 and det = -8)
+          IntMat(<< <<2, 1, 1>>, <<1, 3, 1>>, <<1, 2, 4>> >>), IntMat(<< <<1, 2, 0>>, <<3, 1, 1>>, <<1, 0, 2>> >>) >>
 IsDiag(A) == \A i \in 1..Len(A) : \A j \in 1..Len(A) : i # j => IsZero(A[i][j])
 
 -------------------------------------------------------------------------------
